@@ -79,7 +79,12 @@ func (s *session) SendDataMessage(ctx context.Context, stream, function byte, re
 	}
 
 	// nil interface → (nil, false); typed-nil is returned as nil.
-	dm, _ := reply.(*DataMessage)
+	dm, ok := reply.(*DataMessage)
+	if reply != nil && !ok {
+		// A non-data message (a control response the peer sent under this primary's System Bytes)
+		// is not a reply to a data transaction: never surface it as a (nil, nil) success.
+		return nil, ErrInvalidRspMsg
+	}
 
 	// A reply whose body fails to decode must not unblock the caller as a clean success.
 	// Surface the decode error, but return the message alongside it (non-destructive: the
@@ -122,7 +127,12 @@ func (s *session) SendSECS2Message(ctx context.Context, msg secs2.SECS2Message) 
 		return nil, err
 	}
 
-	dataReply, _ := reply.(*DataMessage)
+	dataReply, ok := reply.(*DataMessage)
+	if reply != nil && !ok {
+		// See SendDataMessage: a non-data message routed under this primary's System Bytes is not
+		// a reply to a data transaction.
+		return nil, ErrInvalidRspMsg
+	}
 
 	// See SendDataMessage: an undecodable reply surfaces its decode error, but the message
 	// is still returned alongside the error so the caller keeps the header.
